@@ -16,12 +16,25 @@ use swc_core::{
     plugin::errors::HANDLER,
 };
 
+#[cfg(feature = "verif-hooks")]
+macro_rules! verif_point {
+    ($site:literal) => {
+        $crate::verif_hooks::point($site)
+    };
+}
+#[cfg(not(feature = "verif-hooks"))]
+macro_rules! verif_point {
+    ($site:literal) => {};
+}
+
 mod directive;
 mod options;
 mod patch_flags;
 mod resolve_type;
 mod slot_flag;
 mod util;
+#[cfg(feature = "verif-hooks")]
+pub mod verif_hooks;
 
 const FRAGMENT: &str = "Fragment";
 const KEEP_ALIVE: &str = "KeepAlive";
@@ -87,6 +100,7 @@ where
     }
 
     fn import_from_vue(&mut self, item: &'static str) -> Ident {
+        verif_point!("import_from_vue");
         self.vue_imports
             .entry(item)
             .or_insert_with_key(|name| private_ident!(format!("_{name}")))
@@ -94,12 +108,14 @@ where
     }
 
     fn generate_slot_helper(&mut self) -> Ident {
+        verif_point!("slot_helper");
         self.slot_helper_ident
             .get_or_insert_with(|| private_ident!("_isSlot"))
             .clone()
     }
 
     fn transform_jsx_element(&mut self, jsx_element: &JSXElement) -> Expr {
+        verif_point!("jsx_element");
         if self.options.optimize {
             self.slot_flag_stack.push(SlotFlag::Stable);
         }
@@ -230,6 +246,7 @@ where
     }
 
     fn transform_jsx_fragment(&mut self, jsx_fragment: &JSXFragment) -> Expr {
+        verif_point!("jsx_fragment");
         if self.options.optimize {
             self.slot_flag_stack.push(SlotFlag::Stable);
         }
@@ -256,6 +273,7 @@ where
     }
 
     fn transform_tag(&mut self, jsx_element_name: &JSXElementName) -> Expr {
+        verif_point!("tag");
         match jsx_element_name {
             JSXElementName::Ident(ident) => {
                 let name = &*ident.sym;
@@ -301,6 +319,7 @@ where
         is_component: bool,
         directives: &mut Vec<NormalDirective>,
     ) -> AttrsTransformationResult<'a> {
+        verif_point!("attrs");
         let mut slots = None;
 
         if attrs.is_empty() {
@@ -545,6 +564,7 @@ where
                         if self.options.transform_on
                             && (attr_name == "on" || attr_name == "nativeOn")
                         {
+                            verif_point!("transform_on_helper");
                             merge_args.push(Expr::Call(CallExpr {
                                 span: DUMMY_SP,
                                 callee: Callee::Expr(Box::new(Expr::Ident(
@@ -674,6 +694,7 @@ where
         is_component: bool,
         slots: Option<Box<Expr>>,
     ) -> Expr {
+        verif_point!("children");
         let elems = children
             .iter()
             .filter_map(|child| match child {
@@ -911,6 +932,7 @@ where
     }
 
     fn generate_unique_slot_ident(&mut self) -> Ident {
+        verif_point!("slot_ident");
         let ident = if self.slot_counter == 1 {
             private_ident!("_slot")
         } else {
@@ -931,6 +953,7 @@ where
     }
 
     fn transform_jsx_text(&mut self, jsx_text: &JSXText) -> Option<Expr> {
+        verif_point!("jsx_text");
         let text = util::transform_text(&jsx_text.value);
         if text.is_empty() {
             None
@@ -950,6 +973,7 @@ where
     }
 
     fn resolve_directive(&mut self, directive_name: &str, jsx_element: &JSXElement) -> Expr {
+        verif_point!("resolve_directive");
         match directive_name {
             "show" => Expr::Ident(self.import_from_vue("vShow")),
             "model" => match &jsx_element.opening.name {
@@ -1001,6 +1025,7 @@ where
     }
 
     fn is_component(&self, element_name: &JSXElementName) -> bool {
+        verif_point!("is_component");
         let name = match element_name {
             JSXElementName::Ident(Ident { sym, .. }) => sym,
             JSXElementName::JSXMemberExpr(JSXMemberExpr { prop, .. }) => &*prop.sym,
@@ -1028,6 +1053,7 @@ where
     }
 
     fn get_pragma(&mut self) -> Ident {
+        verif_point!("get_pragma");
         self.pragma
             .as_ref()
             .or(self.options.pragma.as_ref())
@@ -1036,6 +1062,7 @@ where
     }
 
     fn search_jsx_pragma(&mut self, span: Span) {
+        verif_point!("search_pragma");
         if let Some(comments) = &self.comments {
             comments.with_leading(span.lo, |comments| {
                 let pragma = comments.iter().find_map(|comment| {
@@ -1055,6 +1082,7 @@ where
     }
 
     fn build_iife(&mut self, elems: Vec<Option<ExprOrSpread>>) -> Vec<Option<ExprOrSpread>> {
+        verif_point!("build_iife");
         let left = self.assignment_left.take();
         if let Some(left) = left {
             elems
@@ -1062,6 +1090,7 @@ where
                 .map(|elem| match elem {
                     Some(ExprOrSpread { spread: None, expr }) => match *expr {
                         Expr::Ident(ident) if ident.sym == left.sym => {
+                            verif_point!("iife_ident");
                             let name = private_ident!(format!("_{}", ident.sym));
                             self.injecting_consts.push(VarDeclarator {
                                 span: DUMMY_SP,
@@ -1130,6 +1159,7 @@ where
     C: Comments,
 {
     fn visit_mut_module(&mut self, module: &mut Module) {
+        verif_point!("module");
         self.search_jsx_pragma(module.span);
         module
             .body
@@ -1137,6 +1167,7 @@ where
             .for_each(|item| self.search_jsx_pragma(item.span()));
 
         module.visit_mut_children_with(self);
+        verif_point!("drain_module");
 
         if !self.injecting_consts.is_empty() {
             module.body.insert(
@@ -1163,6 +1194,7 @@ where
             self.slot_counter = 1;
         }
 
+        verif_point!("emit_helpers");
         if let Some(slot_helper) = &self.slot_helper_ident {
             module.body.insert(
                 0,
@@ -1220,6 +1252,7 @@ where
 
     fn visit_mut_stmts(&mut self, stmts: &mut Vec<Stmt>) {
         stmts.visit_mut_children_with(self);
+        verif_point!("drain_stmts");
 
         if !self.injecting_consts.is_empty() {
             stmts.insert(
@@ -1249,6 +1282,7 @@ where
 
     fn visit_mut_arrow_expr(&mut self, arrow_expr: &mut ArrowExpr) {
         arrow_expr.visit_mut_children_with(self);
+        verif_point!("drain_arrow");
 
         if !self.injecting_consts.is_empty() || !self.injecting_vars.is_empty() {
             if let BlockStmtOrExpr::Expr(ret) = &*arrow_expr.body {
@@ -1289,6 +1323,7 @@ where
 
     fn visit_mut_expr(&mut self, expr: &mut Expr) {
         expr.visit_mut_children_with(self);
+        verif_point!("expr");
 
         match expr {
             Expr::JSXElement(jsx_element) => *expr = self.transform_jsx_element(jsx_element),
@@ -1303,6 +1338,7 @@ where
 
     // decouple `v-models`
     fn visit_mut_jsx_opening_element(&mut self, jsx_opening_element: &mut JSXOpeningElement) {
+        verif_point!("opening_element");
         jsx_opening_element.visit_mut_children_with(self);
 
         let Some(index) =
@@ -1356,6 +1392,7 @@ where
     }
 
     fn visit_mut_import_decl(&mut self, import_decl: &mut ImportDecl) {
+        verif_point!("import_decl");
         import_decl.visit_mut_children_with(self);
 
         if import_decl.src.value != "vue" {
@@ -1380,6 +1417,7 @@ where
     }
 
     fn visit_mut_ts_interface_decl(&mut self, ts_interface_decl: &mut TsInterfaceDecl) {
+        verif_point!("ts_interface");
         ts_interface_decl.visit_mut_children_with(self);
         if self.options.resolve_type {
             let key = (ts_interface_decl.id.sym.clone(), ts_interface_decl.id.ctxt);
@@ -1395,6 +1433,7 @@ where
     }
 
     fn visit_mut_ts_type_alias_decl(&mut self, ts_type_alias_decl: &mut TsTypeAliasDecl) {
+        verif_point!("ts_type_alias");
         ts_type_alias_decl.visit_mut_children_with(self);
         if self.options.resolve_type {
             self.type_aliases.insert(
@@ -1408,6 +1447,7 @@ where
     }
 
     fn visit_mut_call_expr(&mut self, call_expr: &mut CallExpr) {
+        verif_point!("call_expr");
         call_expr.visit_mut_children_with(self);
 
         if !self.options.resolve_type {
@@ -1422,6 +1462,7 @@ where
             return;
         };
 
+        verif_point!("define_component");
         let props_types = self.extract_props_type(maybe_setup);
         let emits_types = self.extract_emits_type(maybe_setup);
         if let Some(prop_types) = props_types {
@@ -1433,6 +1474,7 @@ where
     }
 
     fn visit_mut_var_declarator(&mut self, var_declarator: &mut VarDeclarator) {
+        verif_point!("var_declarator");
         var_declarator.visit_mut_children_with(self);
 
         if !self.options.resolve_type {
